@@ -1,0 +1,7 @@
+//go:build !verif
+
+package bstream
+
+// verifPoint is a schedule point of the verification harness; without the build tag `verif` it is
+// an empty function that the compiler inlines away.
+func verifPoint(name string) {}
